@@ -40,6 +40,20 @@ def literals : Expr K → List K
   | .pre _ e => literals e
   | _ => []
 
+/-- what is wrong with each leaf of an expression, left to right (nothing for a good leaf) -/
+def leafErrors (imBig : K → Bool) (Γ : Decls) : Expr K → List TypeErr
+  | .address r =>
+    match Γ.get r.name with
+    | some .real => []
+    | some _ => [.realValueRequired]
+    | none => [.undefinedMemoryReference]
+  | .call _ e => leafErrors imBig Γ e
+  | .bin l _ r => leafErrors imBig Γ l ++ leafErrors imBig Γ r
+  | .number z => if imBig z then [.realValueRequired] else []
+  | .pi => []
+  | .pre _ e => leafErrors imBig Γ e
+  | .var _ => [.realValueRequired]
+
 /-- INTEGER or REAL -/
 def ScalarType.numeric : ScalarType → Prop
   | .integer => True
